@@ -69,6 +69,7 @@ class SymTab:
 
 TAB = SymTab()
 HYP = []          # (label, Poly) : Poly == 0 hypotheses (stub contracts, defining relations)
+HYP_DERIVED = []  # (label, Poly) : consequences of HYP (sound to add; never solved for, only used as rewrite rules)
 ASSUMED = []      # free-text assumptions taken on this run (reported in evidence)
 STATS = {"inexact_float_lifts": 0, "generic_branches": 0}
 _ALG = {}
@@ -81,6 +82,7 @@ _LOG_INV = {}     # exponent symbol L (sid) -> the quantity p with L = log10(p)
 def reset():
     TAB.reset()
     HYP.clear()
+    HYP_DERIVED.clear()
     ASSUMED.clear()
     STATS["inexact_float_lifts"] = 0
     STATS["generic_branches"] = 0
